@@ -2,6 +2,7 @@
 save/load (C06), hashing (C07), metadata filters (C19).  Every function returns what is
 logged in the event; the source object's projection is logged by the Replayer afterwards, so
 "the derivation changed nothing" is the ordinary step clause of a pure call."""
+import json
 import itertools
 import os
 import shutil
@@ -192,6 +193,54 @@ def reordered_twin(r, obj):
     return h
 
 
+def rebuilt_twin(r, obj):
+    """a FRESH object of the same class holding the same content, built through the public API in the opposite order:
+    nodes and hyperedges inserted in reversed listing order, the nodes of every hyperedge listed in reversed order.
+    Returns None unless the twin's abstract state equals the original's (then, and only then, equal hashes are demanded)"""
+    import copy
+    b = r.b
+    kind = b.kind
+    wtd = bool(obj.is_weighted())
+    h = type(obj)(weighted=wtd)
+    for n in reversed(list(obj.get_nodes())):
+        md = b._nmd(obj, n)
+        if md:
+            h.add_node(n, metadata=copy.deepcopy(md))
+        else:
+            h.add_node(n)
+    for e in reversed(list(obj.get_edges())):
+        kw = {"metadata": copy.deepcopy(b._emd(obj, e))}
+        if wtd:
+            kw["weight"] = b._weight(obj, e)
+        if kind == "hg":
+            h.add_edge(tuple(reversed(tuple(e))), **kw)
+        elif kind == "dir":
+            h.add_edge((tuple(reversed(tuple(e[0]))), tuple(reversed(tuple(e[1])))), **kw)
+        elif kind == "temp":
+            h.add_edge(tuple(reversed(tuple(e[1]))), e[0], **kw)
+        else:
+            h.add_edge(tuple(reversed(tuple(e[0]))), e[1], **kw)
+    h.set_hypergraph_metadata(copy.deepcopy(obj.get_hypergraph_metadata()))
+
+    def canon(st):
+        return (sorted(st["nodes"]), sorted(json.dumps(x, sort_keys=True) for x in st["edges"]),
+                sorted(json.dumps(x, sort_keys=True) for x in st["nmd"]), json.dumps(st["hmd"], sort_keys=True), st["wtd"], st["err"])
+    s1, s2 = b.state(obj), b.state(h)
+    if s1["err"] or canon(s1) != canon(s2):
+        return None
+    # the concrete values too (the abstract state does not tell 1 from 1.0, nor a nested value's spelling)
+    for e in obj.get_edges():
+        w1, w2 = b._weight(obj, e), b._weight(h, e)
+        if type(w1) is not type(w2) or w1 != w2 or b._emd(obj, e) != b._emd(h, e):
+            return None
+    for n in obj.get_nodes():
+        if b._nmd(obj, n) != b._nmd(h, n):
+            return None
+    if obj.get_hypergraph_metadata() != h.get_hypergraph_metadata():
+        return None
+    return h
+
+
 def hash_event(r, oid):
     from hypergraphx.readwrite.hashing import hash_hypergraph
     obj = r.objs[oid]
@@ -200,6 +249,12 @@ def hash_event(r, oid):
     if dg is not None:
         ev["digest"] = str(dg)
         # metamorphic twin: equal content, metadata dictionaries created in another key order
+        # metamorphic twin: equal content inserted in the opposite order into a fresh object (every container type)
+        rb, rerr = _safe(lambda: rebuilt_twin(r, obj))
+        if rb is not None:
+            rd, rerr = _safe(lambda: hash_hypergraph(rb))
+            if rd is not None:
+                ev["digest_rebuilt"] = str(rd)
         if "copy" not in __import__("harness.binding", fromlist=["UNSUPPORTED"]).UNSUPPORTED[r.b.kind]:
             tw, terr = _safe(lambda: hash_hypergraph(reordered_twin(r, obj)))
             if tw is not None:
